@@ -16,7 +16,7 @@
 (*   WALK  random walks (tlc -simulate) over a grammar-directed alphabet   *)
 (***************************************************************************)
 EXTENDS Head, Json, IOUtils
-CONSTANTS Family, SeedCaps, SeedKinds, SeedMaxLen, SeedPhases, SeedCfgs, Follow, Alpha, L, LaneBytes, FillMode,
+CONSTANTS Family, SeedCaps, SeedKinds, SeedMaxLen, SeedPhases, SeedCfgs, Follow, Alpha, L, LaneBytes, FillMode, LaneTail,
           SeedMod, SeedRem      \* shard: seeds with index % SeedMod = SeedRem
 VARIABLES s, buf, cfgb, stage, cnt, todo
 vars == <<s, buf, cfgb, stage, cnt, todo>>
@@ -40,12 +40,14 @@ StagesOf(name) ==
             {<<CR, LF>>, <<SEMI, 120, CR, LF>>, <<SP, HT, CR, LF>>, <<LF>>} >>
     [] name = "LINES" ->
          LET ls == { <<97, COLON, 98, LF>>, <<97, COLON, SP, 98, SP, CR, LF>>, <<97, COLON, LF>>,
-                     <<SP, 99, LF>>, <<120, LF>>, <<97, SP, COLON, 98, LF>>, <<97, COLON, 1, LF>> }
+                     <<SP, 99, LF>>, <<120, LF>>, <<97, SP, COLON, 98, LF>>, <<97, COLON, 1, LF>>,
+                     <<97, COLON, 98, HT, 99, 200, CR, LF>>,         \* interior HTAB, value ending in obs-text
+                     <<>> }                                          \* (no line: blocks of 0..4 lines)
          IN << ls, ls, ls, ls, {<<LF>>, <<CR, LF>>, <<98, COLON>>} >>
     [] name = "LINES5" ->
          LET ls == { <<97, COLON, 98, LF>>, <<97, COLON, SP, 98, SP, CR, LF>>, <<97, COLON, LF>>,
                      <<SP, 99, LF>>, <<120, LF>>, <<97, SP, COLON, 98, LF>>, <<97, COLON, 1, LF>>,
-                     <<HT, LF>>, <<97, COLON, CR, LF>> }
+                     <<HT, LF>>, <<97, COLON, CR, LF>>, <<97, COLON, 98, HT, 99, HT, CR, LF>>, <<97, COLON, SP, 200, LF>>, <<>> }
          IN << ls, ls, ls, ls, ls, {<<LF>>, <<CR, LF>>, <<98, COLON>>} >>
     [] name = "METHODS" ->
          \* the method fast paths of the implementation compare 4 bytes against "GET " and
@@ -69,7 +71,8 @@ StagesOf(name) ==
             {<<SP>>, <<SP, SP>>},
             {<<50, 48, 48>>, <<52, 48, 52>>},
             {<<>>, <<SP>>, <<SP, SP>>, <<SP, HT>>},
-            {<<>>, <<79, 75>>, <<78, 111, 116, SP, 70, 111, 117, 110, 100>>, <<99, 97, 102, 233>>, <<HT>>, <<DEL>>},
+            {<<>>, <<79, 75>>, <<78, 111, 116, SP, 70, 111, 117, 110, 100>>, <<99, 97, 102, 233>>, <<HT>>, <<DEL>>,
+             <<97, SP, SP, 98>>, <<128>>},
             {<<>>, <<SP>>, <<SP, SP>>, <<HT>>},
             {<<CR, LF>>, <<LF>>, <<CR>>},
             {<<LF>>, <<CR, LF>>, <<97, COLON, SP, 98, SP, CR, LF, CR, LF>>} >>
@@ -83,8 +86,11 @@ Filler(ph) == IF ph \in {"OWS", "NAME_WS", "LWS", "RSKIP", "T0", "HLINE"} THEN S
 \* "utf8" filler: the two bytes of U+00E9 alternately, so that the byte under test has a
 \* neighbour >= 0x80 (word-at-a-time arithmetic lets neighbouring lanes influence each other)
 \* while the text before it stays valid UTF-8
+\* "ws" filler: SP inside a value / reason (long whitespace runs in and at the end of fields)
 FillerAt(ph, k) == IF FillMode = "utf8" /\ ph \in {"TARGET", "VALUE", "REASON", "EXT", "IGN"}
-                   THEN (IF k % 2 = 0 THEN 195 ELSE 169) ELSE Filler(ph)
+                   THEN (IF k % 2 = 0 THEN 195 ELSE 169)
+                   ELSE IF FillMode = "ws" /\ ph \in {"VALUE", "REASON"} THEN SP
+                   ELSE Filler(ph)
 \* LANE needs few option sets: all-off and all-on per kind
 Extreme(k, n) == IF k = "req" THEN n \in {0, 1 + 16 + 32}
                  ELSE IF k = "resp" THEN n \in {0, 2 + 4 + 8 + 16 + 64} ELSE TRUE
@@ -111,10 +117,15 @@ NextByte == /\ todo' = todo
             /\ \/ stage = 0 /\ \E b \in Byte : Feed(b) /\ stage' = 1 /\ cnt' = cnt
                \/ stage = 1 /\ \E b \in Follow : Feed(b) /\ stage' = 2 /\ cnt' = cnt
 NextExt == cnt < L /\ \E b \in Alpha : Feed(b) /\ cnt' = cnt + 1 /\ stage' = stage /\ todo' = todo
-NextLane == /\ todo' = todo
-            /\ \/ stage = 0 /\ cnt < L /\ s.ph \in LoopPh /\ Feed(FillerAt(s.ph, cnt)) /\ cnt' = cnt + 1 /\ stage' = 0
-               \/ stage = 0 /\ \E b \in LaneBytes : Feed(b) /\ stage' = 1 /\ cnt' = cnt
-               \/ stage = 1 /\ \E b \in Follow : Feed(b) /\ stage' = 2 /\ cnt' = cnt
+\* after the byte under test, LaneTail more filler bytes follow (fed without being emitted one
+\* by one), so that the interesting byte is NOT near the end of the buffer: block scanners
+\* behave differently when a full block is still available after it
+NextLane == \/ /\ stage = 0 /\ cnt < L /\ s.ph \in LoopPh /\ Feed(FillerAt(s.ph, cnt)) /\ cnt' = cnt + 1 /\ stage' = 0 /\ todo' = todo
+            \/ /\ stage = 0 /\ \E b \in LaneBytes : Feed(b) /\ stage' = 1 /\ cnt' = cnt
+                                /\ todo' = [i \in 1..LaneTail |-> 0]
+            \/ /\ stage = 1 /\ todo # <<>> /\ Feed(IF s.ph \in LoopPh THEN Filler(s.ph) ELSE 97)
+               /\ todo' = Tail(todo) /\ stage' = 1 /\ cnt' = cnt
+            \/ /\ stage = 1 /\ todo = <<>> /\ \E b \in Follow : Feed(b) /\ stage' = 2 /\ cnt' = cnt /\ todo' = todo
 NextSeq == /\ cnt' = cnt
            /\ \/ todo # <<>> /\ Feed(Head(todo)) /\ todo' = Tail(todo) /\ stage' = stage
               \/ todo = <<>> /\ stage < Len(Stages) /\ \E x \in Stages[stage + 1] :
@@ -135,5 +146,6 @@ Next == /\ ~IsDone(s)
              [] Family = "WALK" -> NextWalk
 Spec == Init /\ [][Next]_vars
 
-Emit == PrintT(ToJson(VecOf(s, buf, cfgb)))
+\* (inside a LANE tail the intermediate states are not emitted)
+Emit == (Family = "LANE" /\ todo # <<>>) \/ PrintT(ToJson(VecOf(s, buf, cfgb)))
 =============================================================================
